@@ -34,9 +34,11 @@ def run(ck):
     ck.explanation = (
         "I1: the first token of a line is compared with the seven command words. I2: the `uci` arm prints `id name`, `id author`, then `uciok` last; "
         "the `isready` arm prints `readyok` on every path. I3: the `isready` arm reaches no blocking callee and does not touch the search state. "
-        "I4: a may-hold analysis of Search values over Client::exec shows that no Search is live when Search::spawn is called, that a Search is never "
-        "dropped, overwritten, passed elsewhere or alive at return - its only end of life is Search::wait_cancel, which sends Stop, joins the search and "
-        "then the writer. I5: text starting `bestmove` is printed at exactly two places: in the book branch of `go` (not in an inner loop, and no spawn "
+        "I4: a typestate analysis of Search values (LIVE = running and not told to stop, STOPPED = Stop sent) over Client::exec, with summaries of the "
+        "functions a Search is passed to, shows: no LIVE search exists when Search::spawn is called or when the `stop` / `position` arm ends; a LIVE search is "
+        "never dropped, overwritten or handed to a function that does not send Stop; Client::exec cannot return while a search is held or after one was let "
+        "go without its writer thread having been joined. Search::wait_cancel sends Stop before it joins, and joins both the search and the writer. "
+        "I5: text starting `bestmove` is printed at exactly two places: in the book branch of `go` (not in an inner loop, and no spawn "
         "can follow in that iteration) and after the receive loop of the writer thread (not in a loop, guarded only by `best_line.first()`); every path "
         "through the `go` arm passes the book print or Search::spawn. I6: the book move printed is an element of lookup(book, current_position); the "
         "writer's move is the first element of the line of the last BestMove event. I7: the writer prints origin, destination, lower-cased promotion "
@@ -215,13 +217,67 @@ def _search_locals(prog, ex):
             and type_mentions(prog, loc["ty"], ("uci::Search",))}
 
 
-class LiveSearch:
-    """Forward may-hold analysis: which locals may hold a running `Search` (one that has not been through wait_cancel).
-    Moves transfer, Option::take transfers out of the pointee, wait_cancel consumes, the None edge of a switch over
-    discriminant(x) empties x.  A workspace helper that receives `&mut carrier` is summarised by analysing its body with
-    the pointee as a pseudo-carrier (depth-bounded)."""
+LIVE, STOPPED = 2, 1
+DETACHED = -1   # pseudo-local: some search was let go (dropped / consumed) without its writer having been joined
 
-    def __init__(self, prog, body, pseudo=(), depth=0):
+
+class SearchSummary:
+    """What a workspace function does to the Search it receives as parameter #p (by value or by reference), on every path:
+    sends Stop on its control channel / joins the search thread / joins the writer thread.  Looks through workspace callees."""
+
+    def __init__(self, prog):
+        self.prog = prog
+        self.memo = {}
+
+    def of(self, fn, p, depth=0):
+        key = (fn, p)
+        if key in self.memo:
+            return self.memo[key]
+        self.memo[key] = {"stops": False, "joins_search": False, "joins_writer": False, "blocks": {}}
+        b = self.prog.body(fn)
+        if b is None or depth > 3:
+            return self.memo[key]
+        tb = TermBuilder(self.prog, b)
+        marks = {"stops": [], "joins_search": [], "joins_writer": []}
+
+        def on_self(t, field=None):
+            for x in walk(t):
+                if x == ("param", p):
+                    return True
+            return False
+        for bb, t in live_calls(b):
+            n = callee_name(t)
+            args = [tb.operand(a) for a in t["args"]]
+            txt = " ".join(show(a) for a in args)
+            if "mpsc::Sender" in n and n.endswith("::send") and args and on_self(args[0]) and any(x[0] == "field" and x[2] == "control" for x in walk(args[0])) \
+                    and any("Stop" in show(a) for a in args[1:]):
+                marks["stops"].append(bb)
+            elif "JoinHandle" in n and n.endswith("::join") and args and on_self(args[0]):
+                if any(x[0] == "field" and x[2] == "search_handle" for x in walk(args[0])):
+                    marks["joins_search"].append(bb)
+                if any(x[0] == "field" and x[2] == "write_handle" for x in walk(args[0])):
+                    marks["joins_writer"].append(bb)
+            elif n in self.prog.bodies:
+                for i, a in enumerate(args):
+                    if a == ("param", p) or (a[0] in ("ref", "deref") and on_self(a)) or (on_self(a) and not any(x[0] == "field" for x in walk(a))):
+                        sub = self.of(n, i + 1, depth + 1)
+                        for k in marks:
+                            if sub[k]:
+                                marks[k].append(bb)
+        ex = cfg.exits(b)
+        out = {k: bool(v) and cfg.must_pass(b, [0], ex, v) for k, v in marks.items()}
+        out["blocks"] = marks
+        self.memo[key] = out
+        return out
+
+
+class LiveSearch:
+    """Forward typestate analysis of `Search` values: which locals may hold a search that is LIVE (running, Stop not sent)
+    or STOPPED (Stop sent, threads not joined).  Moves transfer, Option::take transfers out of the pointee, a callee that
+    stops / joins (SearchSummary) changes the state, the None edge of a switch over discriminant(x) empties x.  A workspace
+    helper that receives `&mut carrier` is summarised by analysing its body with the pointee as a pseudo-carrier."""
+
+    def __init__(self, prog, body, pseudo=(), depth=0, summaries=None):
         self.prog, self.b, self.depth = prog, body, depth
         self.tracked = _search_locals(prog, body) | set(pseudo)
         self.pseudo = set(pseudo)
@@ -230,6 +286,7 @@ class LiveSearch:
         self.rs = cfg.reachable_blocks(body)
         self.events = {}
         self.inn = {}
+        self.sums = summaries or SearchSummary(prog)
 
     def name(self, l):
         return self.b.local_name(l) or "_%d" % l
@@ -244,31 +301,41 @@ class LiveSearch:
             return p["l"]
         return None
 
-    def pointees(self, a):
+    def pointees(self, a, mut_only=True):
         out = set()
         for l in operand_locals(a):
             ty = self.b.local_ty(l)
-            if ty.startswith("&mut "):
+            if ty.startswith("&mut ") or (not mut_only and ty.startswith("&")):
                 if l in self.pseudo:
                     out.add(l)
                 out |= self.deps.points_to.get(l, set())
         return out
 
-    def summary(self, callee, arg_index):
-        """May the pointee of argument #arg_index still hold a live search when `callee` returns?  (True = may hold)"""
+    def carrier_summary(self, callee, arg_index):
+        """Level the pointee of `&mut Option<Search>` argument #arg_index may still have when `callee` returns, and the first bad event inside."""
         cb = self.prog.body(callee)
         if cb is None or self.depth >= 2:
-            return True, None
+            return None, None
         p = arg_index + 1
-        an = LiveSearch(self.prog, cb, pseudo=(p,), depth=self.depth + 1)
-        an.solve({p})
+        an = LiveSearch(self.prog, cb, pseudo=(p,), depth=self.depth + 1, summaries=self.sums)
+        an.solve({p: LIVE})
         bad = [k for k in an.events if k[0] in ("dropped", "escapes", "second_search", "overwritten")]
-        holds = any(p in an.out_state(bb) for bb in cfg.exits(cb) if bb in an.inn)
-        return holds, (bad[0] if bad else None)
+        lvl = 0
+        for bb in cfg.exits(cb):
+            if bb in an.inn:
+                lvl = max(lvl, an.out_state(bb).get(p, 0))
+        return lvl, (bad[0] if bad else None)
+
+    @staticmethod
+    def join(a, b):
+        out = dict(a)
+        for k, v in b.items():
+            out[k] = max(out.get(k, 0), v)
+        return out
 
     def transfer(self, bb, state, record):
         ex, tracked = self.b, self.tracked
-        st = set(state)
+        st = dict(state)
         for s in ex.stmts(bb):
             if s["k"] != "assign":
                 continue
@@ -282,69 +349,91 @@ class LiveSearch:
                 m = self.moved(o, st)
                 if m is not None:
                     srcs.append(m)
-            for m in srcs:
-                st.discard(m)
+            lvl = max([st.pop(m) for m in srcs] or [0])
             deref_dst = bool(dst["p"]) and dst["p"][0] == "*"
             targets = {dst["l"]} if not deref_dst else ({dst["l"]} & self.pseudo) | self.deps.points_to.get(dst["l"], set())
             targets &= tracked
             none = "agg" in rv and rv["agg"].get("adt") == "core::option::Option" and rv["agg"].get("variant") == "None"
             for tg in targets:
                 if srcs:
-                    st.add(tg)
+                    st[tg] = max(st.get(tg, 0), lvl)
                 elif none and (not dst["p"] or dst["p"] == ["*"]):
-                    if tg in st and record:
+                    if st.get(tg) == LIVE and record:
                         self.ev("overwritten", bb, self.name(tg), s.get("line"))
-                    st.discard(tg)
+                    if tg in st:
+                        st.pop(tg)
+                        st[DETACHED] = 1
         t = ex.term(bb)
         if t["k"] == "drop":
             p = t["place"]
             tg = {p["l"]} if not (p["p"] and p["p"][0] == "*") else self.deps.points_to.get(p["l"], set()) | ({p["l"]} & self.pseudo)
-            for x in tg & st:
-                if record:
+            for x in tg & set(st):
+                if st[x] == LIVE and record:
                     self.ev("dropped", bb, self.name(x), t.get("line"))
-                st.discard(x)
+                st.pop(x)
+                st[DETACHED] = 1
         elif t["k"] == "call":
             n = callee_name(t)
             d = t["dest"]
             if n == SPAWN:
-                if st and record:
-                    self.ev("second_search", bb, ",".join(sorted(self.name(l) for l in st)), t.get("line"))
-                st.add(d["l"])
+                live = sorted(self.name(l) for l, v in st.items() if v == LIVE and l != DETACHED)
+                if live and record:
+                    self.ev("second_search", bb, ",".join(live), t.get("line"))
+                st[d["l"]] = LIVE
             else:
-                consumed = [m for m in (self.moved(a, st) for a in t["args"]) if m is not None]
-                for m in consumed:
-                    st.discard(m)
-                if consumed:
-                    if n == WAIT:
-                        pass
+                consumed = [(i, m) for i, m in ((i, self.moved(a, st)) for i, a in enumerate(t["args"])) if m is not None]
+                for i, m in consumed:
+                    lvl = st.pop(m)
+                    if n in self.prog.bodies and not self.b.local_ty(m).startswith("core::option::Option<"):
+                        sm = self.sums.of(n, i + 1)
+                        if not sm["stops"] and lvl == LIVE and record:
+                            self.ev("escapes", bb, "%s -> %s" % (self.name(m), n.split("::")[-1]), t.get("line"))
+                        if not sm["joins_writer"]:
+                            st[DETACHED] = 1
                     elif d["l"] in tracked:
-                        st.add(d["l"])
-                    elif record:
-                        self.ev("escapes", bb, "%s -> %s" % (self.name(consumed[0]), n), t.get("line"))
+                        st[d["l"]] = max(st.get(d["l"], 0), lvl)
+                    else:
+                        if lvl == LIVE and record:
+                            self.ev("escapes", bb, "%s -> %s" % (self.name(m), n), t.get("line"))
+                        st[DETACHED] = 1
                 if n == TAKE:
                     for a in t["args"]:
                         for tgt in self.pointees(a):
                             if tgt in st:
-                                st.discard(tgt)
-                                st.add(d["l"])
+                                st[d["l"]] = max(st.get(d["l"], 0), st.pop(tgt))
                 elif not consumed:
                     for i, a in enumerate(t["args"]):
-                        pts = self.pointees(a) & tracked
-                        if not pts:
+                        pts = self.pointees(a, mut_only=False) & tracked & set(st)
+                        if not pts or n not in self.prog.bodies:
+                            # an external callee with &mut access: a Search-typed result may carry the pointee's search
+                            mp = self.pointees(a) & tracked & set(st)
+                            if mp and d["l"] in tracked and not d["p"]:
+                                st[d["l"]] = max(st.get(d["l"], 0), max(st[x] for x in mp))
                             continue
-                        if n in self.prog.bodies:
-                            holds, bad = self.summary(n, i)
-                            if bad and record and pts & st:
+                        aty = [self.b.local_ty(l) for l in operand_locals(a)]
+                        if any("Option<" in ty for ty in aty):
+                            if not any(ty.startswith("&mut ") for ty in aty):
+                                continue
+                            lvl, bad = self.carrier_summary(n, i)
+                            if bad and record:
                                 self.ev(bad[0], bb, "%s (inside %s)" % (bad[1], n.split("::")[-1]), t.get("line"))
-                            if not holds:
-                                st -= pts
-                        # an external callee with &mut access: a Search-typed result may carry the pointee's search
-                        if d["l"] in tracked and not d["p"] and pts & st:
-                            st.add(d["l"])
+                            if lvl is not None:
+                                for x in pts:
+                                    if lvl == 0:
+                                        st.pop(x)
+                                    else:
+                                        st[x] = min(st[x], lvl) if lvl < st[x] else st[x]
+                        else:
+                            sm = self.sums.of(n, i + 1)
+                            if sm["stops"]:
+                                for x in pts:
+                                    st[x] = STOPPED
         elif t["k"] == "return":
-            live = st - self.pseudo
+            live = sorted(self.name(l) for l, v in st.items() if l != DETACHED and l not in self.pseudo)
             if live and record:
-                self.ev("alive_at_return", bb, ",".join(sorted(self.name(l) for l in live)), t.get("line"))
+                self.ev("alive_at_return", bb, ",".join(live), t.get("line"))
+            if DETACHED in st and not self.pseudo and record:
+                self.ev("detached_at_return", bb, "writer not joined", t.get("line"))
         return st
 
     def refine(self, bb, tgt, st):
@@ -374,13 +463,13 @@ class LiveSearch:
                     none_targets.add(t["otherwise"])
                 some_targets = {v for k, v in vals.items() if k != 0} | ({t["otherwise"]} if 0 in vals else set())
                 if tgt in none_targets and tgt not in some_targets:
-                    st = set(st) - {tg}
+                    st = {k: v for k, v in st.items() if k != tg}
         return st
 
-    def solve(self, init=(), start=0, region=None, stop=()):
+    def solve(self, init=None, start=0, region=None, stop=()):
         """Fixpoint from `start`; with `region`, stay inside it and return {block: state flowing into a `stop` block}."""
         ex = self.b
-        inn = {start: set(init)}
+        inn = {start: dict(init or {})}
         work = [start]
         at_stop = {}
         while work:
@@ -391,20 +480,24 @@ class LiveSearch:
                     continue
                 o = self.refine(b, s, out)
                 if s in stop:
-                    at_stop.setdefault(b, set()).update(o)
+                    at_stop[b] = self.join(at_stop.get(b, {}), o)
                     continue
                 if region is not None and s not in region:
                     continue
                 if s not in inn:
-                    inn[s] = set(o)
+                    inn[s] = dict(o)
                     work.append(s)
-                elif not o <= inn[s]:
-                    inn[s] |= o
-                    work.append(s)
+                else:
+                    j = self.join(inn[s], o)
+                    if j != inn[s]:
+                        inn[s] = j
+                        work.append(s)
         if region is None:
             self.inn = inn
             for b in sorted(inn):
                 self.transfer(b, inn[b], True)
+        else:
+            self.region_inn = inn
         return at_stop
 
     def out_state(self, bb):
@@ -420,15 +513,14 @@ def i4_single_live_search(ck):
     an.solve()
     name = an.name
     spawns = live_calls(ex, names=(SPAWN,))
-    waits = [(b.name, bb) for b in ws_bodies(prog) if b.name.startswith("weechess_engine::uci") for bb, t in live_calls(b, names=(WAIT,))]
     ck.floor("I4", len(spawns), 1, "Search::spawn call sites in Client::exec")
-    ck.floor("I4", len(waits), 2, "Search::wait_cancel call sites in the uci module")
     msgs = {
-        "second_search": "Search::spawn is called while %s may still hold a running search: two searches would be live and both would print a bestmove",
-        "dropped": "a running search held in `%s` can be dropped without wait_cancel: its bestmove is printed later or never, unordered with following commands",
-        "overwritten": "`%s` is reset while it may hold a running search (never cancelled or collected)",
-        "escapes": "a running search is handed to something other than wait_cancel (%s)",
-        "alive_at_return": "Client::exec can return while %s still holds a running search: the process ends without the pending bestmove",
+        "second_search": "Search::spawn is called while %s may still hold a search that was not told to stop: the earlier `go` is not answered when the new one arrives",
+        "dropped": "a running search held in `%s` can be dropped without Stop having been sent: it keeps running until its timer fires, the `go` is not answered when the next command arrives",
+        "overwritten": "`%s` is reset while it may hold a running search that was not told to stop",
+        "escapes": "a running search is handed to a function that does not stop it (%s)",
+        "alive_at_return": "Client::exec can return while %s still holds a search whose threads were not joined: the process ends without the pending bestmove",
+        "detached_at_return": "Client::exec can return after a search was let go without joining its writer thread (%s): the process may exit before the bestmove is printed",
     }
     for kind in msgs:
         hits = [(what, bbline) for (k, what), bbline in sorted(an.events.items()) if k == kind]
@@ -438,76 +530,42 @@ def i4_single_live_search(ck):
             ck.fail("I4." + kind, what, ex.where(line), msgs[kind] % what)
     carriers = _carriers(prog, ex, sh, ("uci::Search",))
     ck.floor("I4", len(carriers), 1, "session locals holding the running search")
-    # stop / position / ucinewgame / go collect the running search on every path back to the loop
-    for w in ("go", "position", "stop", "ucinewgame"):
+    # stop / position tell the running search to stop on every path back to the loop; go does so before spawning
+    for w in ("go", "position", "stop"):
         if w not in arms:
             continue
         entry = arms[w]
         region = sh.arm_blocks(entry)
-        at_end = an.solve(set(carriers), start=entry, region=region, stop=(sh.loop_head,))
+        an2 = LiveSearch(prog, ex, summaries=an.sums)
+        at_end = an2.solve({l: LIVE for l in carriers}, start=entry, region=region, stop=(sh.loop_head,))
         if w != "go":
-            for l in carriers:
-                holders = sorted(b for b, st in at_end.items() if l in st)
-                ck.req(not holders and bool(at_end), "I4.collects", w, ex.where(),
-                       "after `%s` the previous search may still be running (`%s` not taken and collected on the path via bb%s)" % (w, name(l), holders[:2]))
+            holders = sorted(b for b, st in at_end.items() if any(v == LIVE and l != DETACHED for l, v in st.items()))
+            ck.req(not holders and bool(at_end), "I4.stops_running", w, ex.where(),
+                   "after `%s` the previous search may still be running without having been told to stop (path via bb%s)" % (w, holders[:2]))
         else:
-            # before Search::spawn the carrier must be empty even if it held a search at the arm's entry
-            rin = {}
-            an2 = LiveSearch(prog, ex)
-            an2.inn = {}
-            inn = {entry: set(carriers)}
-            work = [entry]
-            while work:
-                b = work.pop()
-                out = an2.transfer(b, inn[b], False)
-                for s in an2.succ[b]:
-                    if s not in region or ex.is_cleanup(s):
-                        continue
-                    o = an2.refine(b, s, out)
-                    if s not in inn:
-                        inn[s] = set(o)
-                        work.append(s)
-                    elif not o <= inn[s]:
-                        inn[s] |= o
-                        work.append(s)
             for bb, t in spawns:
-                held = sorted(name(l) for l in inn.get(bb, set()))
-                ck.req(bb in inn and not held, "I4.go_collects_first", "go", ex.where(t["line"]),
-                       "Search::spawn can be reached in the `go` arm while %s still holds the previous search" % held)
-    ck.sample({"rule": "I4", "tracked_locals": sorted(name(l) for l in an.tracked), "spawn_sites": len(spawns), "wait_cancel_sites": len(waits)})
+                stt = an2.region_inn.get(bb)
+                held = sorted(name(l) for l, v in (stt or {}).items() if v == LIVE and l != DETACHED)
+                ck.req(stt is not None and not held, "I4.go_stops_first", "go", ex.where(t["line"]),
+                       "Search::spawn can be reached in the `go` arm while %s still holds the previous, unstopped search" % held)
+    ck.sample({"rule": "I4", "tracked_locals": sorted(name(l) for l in an.tracked), "spawn_sites": len(spawns),
+               "summaries": {k[0].split("::")[-1]: {x: v[x] for x in ("stops", "joins_search", "joins_writer")} for k, v in an.sums.memo.items()}})
 
 
 def i4_wait_cancel(ck):
     prog = ck.prog
     b = ck.body(WAIT, "I4w")
-    tb = TermBuilder(prog, b)
+    sums = SearchSummary(prog)
+    sm = sums.of(WAIT, 1)
+    ck.req(sm["stops"], "I4w.stop_sent", "wait_cancel", b.where(), "wait_cancel does not send ControlEvent::Stop on the search's control channel on every path")
+    ck.req(sm["joins_search"], "I4w.joins_search", "wait_cancel", b.where(), "wait_cancel does not join the search thread on every path")
+    ck.req(sm["joins_writer"], "I4w.joins_writer", "wait_cancel", b.where(),
+           "wait_cancel does not join the writer thread: the pending bestmove may be printed after the reply to a later command, or lost at exit")
     dom = cfg.dominators(b)
-    send = join_search = join_writer = None
-    for bb, t in live_calls(b):
-        n = callee_name(t)
-        args = [tb.operand(a) for a in t["args"]]
-        txt = " ".join(show(a) for a in args)
-        if "mpsc::Sender" in n and n.endswith("::send"):
-            if "Stop" in txt and "control" in txt:
-                send = bb
-        if "JoinHandle" in n and n.endswith("::join"):
-            if "search_handle" in txt:
-                join_search = bb
-            elif "write_handle" in txt:
-                join_writer = bb
-    ck.req(send is not None, "I4w.stop_sent", "wait_cancel", b.where(), "wait_cancel does not send ControlEvent::Stop on the search's control channel")
-    ck.req(join_search is not None, "I4w.joins_search", "wait_cancel", b.where(), "wait_cancel does not join the search thread")
-    ck.req(join_writer is not None, "I4w.joins_writer", "wait_cancel", b.where(),
-           "wait_cancel does not join the writer thread: the pending bestmove may be printed after the reply to a later command")
-    ex = cfg.exits(b)
-    if None not in (send, join_search, join_writer):
-        ck.req(send in dom[join_search], "I4w.order", "stop before join", b.where(),
-               "the search thread is joined before Stop is sent: the command loop would wait for the full search time")
-        ck.req(join_search in dom[join_writer], "I4w.order", "search before writer", b.where(), "the writer is joined before the search thread")
-        for what, blk in (("send", send), ("join search", join_search), ("join writer", join_writer)):
-            ck.req(cfg.must_pass(b, [0], ex, [blk]), "I4w.always", what, b.where(), "a path through wait_cancel skips the %s step" % what)
-    # the returned artifact is the search thread's result
-    # spawn stores the handles of the threads it starts into the fields used above
+    if sm["stops"] and sm["joins_search"]:
+        ok = all(any(sb in dom[j] for sb in sm["blocks"]["stops"]) for j in sm["blocks"]["joins_search"] + sm["blocks"]["joins_writer"])
+        ck.req(ok, "I4w.order", "stop before join", b.where(),
+               "a thread of the search is joined before Stop is sent: the command loop would wait for the whole search time")
     sp = ck.body(SPAWN, "I4w")
     tbs = TermBuilder(prog, sp)
     agg = None
